@@ -226,7 +226,11 @@ class C12:
     def gen(self, rng, tier, index):
         kind = weighted(rng, [("text", 6), ("table", 2), ("disk", 2), ("repetitive", 0.6)])
         if kind == "text":
-            return {"kind": kind, "text": gen_text(rng, exotic=rng.random() < 0.25), "short_seed": rng.randrange(1 << 30)}
+            cs = weighted(rng, [("utf-8", 8), ("latin-1", 1), ("utf-16", 1)])
+            t = gen_text(rng, exotic=rng.random() < 0.25)
+            if cs == "latin-1":
+                t = "".join(ch if ord(ch) < 256 else "\u00fc" for ch in t)
+            return {"kind": kind, "text": t, "short_seed": rng.randrange(1 << 30), "charset": cs}
         if kind == "repetitive":
             return {"kind": "text", "text": gen_repetitive(rng), "short_seed": rng.randrange(1 << 30)}
         if kind == "table":
@@ -259,14 +263,15 @@ class C12:
         from coba.pipes.sources import HttpSource
         srv = install_transport()
         text = cfg["text"]
-        raw = text.encode("utf-8")
+        charset = cfg.get("charset", "utf-8")
+        raw = text.encode(charset)
         expected = text.splitlines()
         vios = {}
         n = 0
         clean_full = True
         for enc in (None, "gzip", "deflate"):
             wire = encode_wire(raw, enc)
-            srv.wire, srv.enc, srv.charset, srv.plan = wire, enc, "utf-8", None
+            srv.wire, srv.enc, srv.charset, srv.plan = wire, enc, charset, None
             sizes = range(1, len(wire) + 2)
             if len(wire) > 700:
                 # long uncompressed payloads: all small sizes, the sizes around the length, and a seeded sample of the rest
